@@ -6,6 +6,20 @@ NOTE = ("bounded scope only (declared lattices/catalogues/depths); exact Fractio
 TECH = "exhaustive small-scope enumeration of the real implementation against an exact reference model (explicit-state explorer written for this task)"
 
 CHECKS = {
+    "C16": ("Every polygon of an 11-polygon catalogue (triangles of both orientations, rectangles, skew quadrilateral, dart, L, comb, polygons with "
+            "vertices level with other vertices) x every cyclic rotation x both directions x every half-integer query point of the bounding box + "
+            "margin (at vertices, on edges, on edge extensions, level with vertices, inside, outside) against an exact integer crossing-number "
+            "oracle; Polygon / Triangle / Rectangle / PolygonCollection forms, single points (several representatives) and point collections, points at "
+            "infinity; the same in 7 integer affine embeddings into 3-space with in-plane and off-plane queries; segments over all lattice endpoint "
+            "pairs x all half-lattice points (2D and 3D), rays in all lattice directions, SegmentCollection.",
+            NOTE, TECH, "DESIGN.md section 5, C16"),
+    "C17": ("Polygon.area and centroid for the whole catalogue x all rotations/reversals x 2D and 7 embeddings x two vertex representations against "
+            "exact shoelace / area-centroid values (and second reads, collections, isometric images); Simplex.volume / Triangle.area / circumcenter over "
+            "all lattice triangles (2D radius 2, 3D radius 1) and tetrahedra; Segment length / midpoint over all lattice pairs; RegularPolygon for "
+            "lattice centres (on and off the origin), n = 3..8, radii, axes in 3D; Cuboid.area and face areas for orthogonal and sheared edge "
+            "triples; == over every permutation of the vertex cycle (true exactly for rotations/reversals), moved vertices, polyhedra with permuted "
+            "and re-rotated faces.",
+            NOTE, TECH, "DESIGN.md section 5, C17"),
     "C15": ("Conic.from_lines over all ordered pairs of distinct lines of {-2..2}^3 (all sign patterns) and Quadric.from_planes over all pairs of "
             "distinct planes of {-1,0,1}^4: degenerate, and components equal the generating pair as an unordered pair of projective classes, single "
             "and collection forms; is_degenerate against the exact determinant for all 728 lattice conics and 14 quadrics; irreducible quadrics "
